@@ -298,8 +298,15 @@ def from_bbox_only(prog, chk):
     br = prog.body(EL + "::bbox_raw")
     h = prog.hir[br.id]
     # `passthrough(..)` -> return Ok(None) precedes the strp parsing in every arm that parses
-    n_pass = len([1 for n in hirq.exprs(h["body"], "Call") if hirq.callee_path(n).endswith("passthrough")])
-    chk.ob(n_pass >= 4, "A13.unit-bypass", "bbox_raw", br.where(), f"values with units / percentages are recognised by passthrough() ({n_pass} uses) and bypass the box computation", "the unit/percentage bypass is no longer applied in bbox_raw")
+    n_pass = len([1 for n in hirq.exprs(h["body"], "Call") if "passthrough" in hirq.callee_path(n).split("::")[-1]])
+    if n_pass == 0:
+        # the predicate may be handed over as a function value (`.any(is_passthrough_value)`)
+        n_pass = len([1 for n in hirq.exprs(h["body"], "Path") if "passthrough" in str((n.get("res") or {}).get("path", "")).split("::")[-1] and "Fn" in str((n.get("res") or {}).get("dk", ""))])
+    if 0 < n_pass < 4:
+        # fewer textual uses than reviewed: the per-shape copies may have been folded into one helper - not a verdict
+        chk.undecided("A13.unit-bypass", "bbox_raw", br.where(), f"the unit / percentage test is applied at {n_pass} place(s) in bbox_raw (reviewed: one per parsing arm); whether every parsed value still passes it is not decided")
+    else:
+      chk.ob(n_pass >= 4, "A13.unit-bypass", "bbox_raw", br.where(), f"values with units / percentages are recognised by passthrough() ({n_pass} uses) and bypass the box computation", "the unit/percentage bypass is no longer applied in bbox_raw")
     # guard / consumer agreement: the bypass predicate must be built on the very parser(s) the arms apply afterwards,
     # otherwise a value the predicate does not recognise but the parser rejects turns valid SVG into an error
     PARSERS = ("svgdx::types::strp", "svgdx::types::split_unit", "svgdx::types::strp_length", "core::str::<impl str>::parse", "std::str::<impl str>::parse")
